@@ -56,6 +56,8 @@ package tasks
 //@   ensures result1 == nil ==> result0 != nil && result0 == taskCached(listerJob(recv), name) && taskName(result0) == name
 //@   ensures result1 != nil ==> result0 == nil
 //@   ensures errclass(result1) == 404 ==> taskCached(listerJob(recv), name) == nil
+// ASSUMED: a lookup fails only for a name that is not in the cache
+//@   ensures result1 != nil ==> taskCached(listerJob(recv), name) == nil
 
 // Task API effects. delReq / forceReq: names for which a (forced) delete request was issued; any request may fail.
 //@ ghost var delReq Array[string]bool
